@@ -90,3 +90,12 @@ Theorem C06_source_validate_consults :
   V2.Import_Validate_consults = ["go_DecodeActivationClaims"; "go_nkeys_IsValidPublicAccountKey"; "go_now"]%list.
 Proof. repeat split; reflexivity. Qed.
 Print Assumptions C06_source_validate_consults.
+
+(* RenamingSubject.Validate - an import's local subject against the subject it renames: the subject rules, no blanks, both
+   or neither ending in >, every reference $N within the number of wildcard TOKENS of the subject, and as many wildcard
+   tokens and references as the subject has wildcard tokens (whole tokens: a star or a dollar sign inside a literal token
+   counts for nothing) - the model's [v_renaming], which Import.Validate's theorem takes as an observation *)
+Theorem C06_source_renaming_validate : forall (s from : string) (vr : list go_issue),
+  V2.RenamingSubject_Validate (o_atoi) s from vr = vr ++ map goi (v_renaming s from).
+Proof. exact vc_renaming. Qed.
+Print Assumptions C06_source_renaming_validate.
